@@ -18,6 +18,9 @@ var (
 )
 
 // DefaultComparePreRelease implements https://semver.org/#spec-item-11 rules.
+// Dot separated identifiers are compared from left to right. Numeric identifiers are compared numerically
+// and have lower precedence than alphanumeric identifiers, which are compared in ASCII order.
+// If all preceding identifiers are equal, larger set of identifiers has a higher precedence.
 func DefaultComparePreRelease[T1, T2 constraint.ParserInput](a T1, b T2) int {
 	la, lb := len(a), len(b)
 	if la == 0 {
@@ -28,32 +31,63 @@ func DefaultComparePreRelease[T1, T2 constraint.ParserInput](a T1, b T2) int {
 	} else if lb == 0 {
 		return -1
 	}
-	if la > lb {
-		return comparePreRelease(b, a)
-	}
-	return -comparePreRelease(a, b)
+	return comparePreRelease(string(a), string(b))
 }
 
-func comparePreRelease[T1, T2 constraint.ParserInput](shorter T1, longer T2) int {
-	s, l := string(shorter), string(longer)
-	longerRunes := []rune(l)
-	for i, sr := range s {
-		if lr := longerRunes[i]; sr != lr {
-			return comparePreReleaseSuffix(s[i:], l[i:])
+func comparePreRelease(a, b string) int {
+	for {
+		ai, aRest, aMore := strings.Cut(a, ".")
+		bi, bRest, bMore := strings.Cut(b, ".")
+		if c := compareIdentifier(ai, bi); c != 0 {
+			return c
 		}
+		if !aMore || !bMore {
+			if aMore {
+				return 1
+			}
+			if bMore {
+				return -1
+			}
+			return 0
+		}
+		a, b = aRest, bRest
 	}
-	if len(s) == len(l) {
-		return 0
-	}
-	return 1
 }
 
-func comparePreReleaseSuffix(shorter string, longer string) int {
-	if digitsOrEmpty.MatchString(shorter) && digitsOrEmpty.MatchString(longer) {
-		shorter = strings.TrimLeft(shorter, "0")
-		longer = strings.TrimLeft(longer, "0")
+func compareIdentifier(a, b string) int {
+	aNumeric := a != "" && digitsOrEmpty.MatchString(a)
+	bNumeric := b != "" && digitsOrEmpty.MatchString(b)
+	if aNumeric && bNumeric {
+		// numeric identifiers are compared numerically
+		a, b = strings.TrimLeft(a, "0"), strings.TrimLeft(b, "0")
+		if len(a) != len(b) {
+			if len(a) < len(b) {
+				return -1
+			}
+			return 1
+		}
+		return strings.Compare(a, b)
 	}
-	return -strings.Compare(shorter, longer)
+	if aNumeric {
+		// numeric identifiers always have lower precedence than non-numeric identifiers
+		return -1
+	}
+	if bNumeric {
+		return 1
+	}
+	i := 0
+	for i < len(a) && i < len(b) && a[i] == b[i] {
+		i++
+	}
+	return comparePreReleaseSuffix(a[i:], b[i:])
+}
+
+func comparePreReleaseSuffix(a string, b string) int {
+	if digitsOrEmpty.MatchString(a) && digitsOrEmpty.MatchString(b) {
+		a = strings.TrimLeft(a, "0")
+		b = strings.TrimLeft(b, "0")
+	}
+	return strings.Compare(a, b)
 }
 
 // CompareVersion compares passed versions.
